@@ -172,7 +172,9 @@ def ref_split(s):
 
 def spell(rest, form):
     """-> (argument for the ural function, JSON input)"""
-    if form == "http":
+    if isinstance(form, tuple):  # replay: the literal prefix of the recorded input
+        s = form[1] + rest
+    elif form == "http":
         s = "http://" + rest
     elif form == "https":
         s = "https://" + rest
@@ -231,15 +233,32 @@ class Ctx(object):
         key = (pk, host, deco, form)
         r = self.memo.get(key)
         if r is None:
-            x, _ = spell(build(host, *deco), form)
+            xkey = (host, deco, form)
+            x = self.memo.get(xkey)
+            if x is None:
+                x = self.memo[xkey] = spell(build(host, *deco), form)[0]
             raw = call(PRED[pk][1], x)
             if raw[0] == "exc":
                 self.exc[PRED[pk][0] + " " + raw[1]] = self.exc.get(PRED[pk][0] + " " + raw[1], 0) + 1
-            elif not isinstance(raw[1], bool):
+            elif raw[1] is not True and raw[1] is not False:
                 t = PRED[pk][0] + " returns " + type(raw[1]).__name__
                 self.nonbool[t] = self.nonbool.get(t, 0) + 1
             r = outcome(raw)
             self.memo[key] = r
+        return r
+
+    def oracle(self, pk, host, path):
+        key = ("o", pk, host, path)
+        r = self.memo.get(key, 0)
+        if r == 0:
+            exp = oracle(pk, host, path)
+            if exp is None:
+                clause = None
+            elif pk in SHORT and classify_path(path) == "bare" and site_member(pk, host):
+                clause = "bare-domain-not-flagged"
+            else:
+                clause = "member-flagged" if exp else "non-member-not-flagged"
+            r = self.memo[key] = (exp, clause)
         return r
 
 
@@ -255,39 +274,30 @@ def shape_of(deco):
 def check_point(ctx, pk, host, deco, form, only=None):
     """all per-spelling clauses of predicate pk on URL (host, deco) spelled as form"""
     col = ctx.col
-    fn = PRED[pk][0]
     r = ctx.ev(pk, host, deco, form)
-    inp = spell(build(host, *deco), form)[1]
-    shape = shape_of(deco)
-    exp = oracle(pk, host, deco[1])
-    if exp is not None and (only is None or only in ("member-flagged", "non-member-not-flagged", "bare-domain-not-flagged")):
-        if pk in SHORT and classify_path(deco[1]) == "bare" and site_member(pk, host):
-            clause = "bare-domain-not-flagged"
-        else:
-            clause = "member-flagged" if exp else "non-member-not-flagged"
-        if only is None or only == clause:
-            col.count(clause)
-            if r != exp and not (isinstance(r, str)):
-                ctx.flag(clause, fn, inp, r, exp, shape)
+    if r is not True and r is not False:
+        return  # an exception: counted in the notes, not flagged (the statement does not promise totality)
+    exp, clause = ctx.oracle(pk, host, deco[1])
+    if clause is not None and (only is None or only == clause):
+        col.count(clause)
+        if r is not exp:
+            ctx.flag(clause, PRED[pk][0], spell(build(host, *deco), form)[1], r, exp, shape_of(deco))
     for clause, idx, name in COMP:
-        if only is not None and only != clause:
-            continue
-        if not deco[idx] or (idx == 1 and pk not in PATH_FREE):
+        if not deco[idx] or (idx == 1 and pk not in PATH_FREE) or (only is not None and only != clause):
             continue
         base = deco[:idx] + ("",) + deco[idx + 1:]
         rb = ctx.ev(pk, host, base, form)
         col.count(clause)
-        if rb != r and not isinstance(r, str) and not isinstance(rb, str):
-            i2 = dict(inp)
+        if rb is not r and (rb is True or rb is False):
+            i2 = spell(build(host, *deco), form)[1]
             i2["without"] = name
-            ctx.flag(clause, fn, i2, r, "%r (the answer on %s)" % (rb, spell(build(host, *base), form)[1]["url"]), shape)
+            ctx.flag(clause, PRED[pk][0], i2, r, "%r (the answer on %s)" % (rb, spell(build(host, *base), form)[1]["url"]),
+                     shape_of(deco))
     if pk == "shortened" and (only is None or only == "shortened-implies-resolve"):
         col.count("shortened-implies-resolve")
-        if r is True:
-            r2 = ctx.ev("resolve", host, deco, form)
-            if r2 is False:
-                ctx.flag("shortened-implies-resolve", fn, inp, "is_shortened_url true, should_resolve false",
-                         "should_resolve true", shape)
+        if r is True and ctx.ev("resolve", host, deco, form) is False:
+            ctx.flag("shortened-implies-resolve", PRED[pk][0], spell(build(host, *deco), form)[1],
+                     "is_shortened_url true, should_resolve false", "should_resolve true", shape_of(deco))
 
 
 def check_forms(ctx, pk, host, deco, forms=FORMS):
@@ -366,12 +376,20 @@ def mutations(d):
     yield "dot-replaced", d.replace(".", "x", 1)
 
 
-def reduced(i, D):
-    """a sub-product of the decoration alphabets (each factor keeps ''), rotating with i so that all tokens get used"""
-    uis = ["", T(UIS, D)[1 + i % 3]]
-    paths = ["", "/abc123", T(PATHS, D)[1 + i % 8], T(PATHS, D)[1 + (i // 8 + 3) % 8]]
-    qs = ["", T(QS, D)[1 + (i // 3) % 3]]
-    fs = ["", T(FS, D)[1 + (i // 9) % 3]]
+def reduced(i, D, wide=False):
+    """a sub-product of the decoration alphabets (each factor keeps ''), rotating with i so that all tokens get used;
+    2x3x2x2 (quick) or 3x5x3x3 (wide: thorough tier, shortener lists)"""
+    U, P, Q, F = T(UIS, D), T(PATHS, D), T(QS, D), T(FS, D)
+    if wide:
+        uis = ["", U[1 + i % 3], U[1 + (i + 1) % 3]]
+        paths = ["", "/abc123", P[1 + i % 8], P[1 + (i + 3) % 8], P[1 + (i + 5) % 8]]
+        qs = ["", Q[1 + i % 3], Q[1 + (i + 1) % 3]]
+        fs = ["", F[1 + (i // 3) % 3], F[1 + (i // 3 + 1) % 3]]
+    else:
+        uis = ["", U[1 + i % 3]]
+        paths = ["", "/abc123", P[1 + i % 8]]
+        qs = ["", Q[1 + (i // 3) % 3]]
+        fs = ["", F[1 + (i // 9) % 3]]
     return uis, sorted(set(paths), key=paths.index), qs, fs
 
 
@@ -407,9 +425,9 @@ def job_list(ctx, group, domains, start, tier):
     full = (T(UIS, D), T(PATHS, D), T(QS, D), T(FS, D))
     for j, d in enumerate(domains):
         i = start + j
-        everything = tier == "thorough" or d in REPRESENTATIVE[group]
+        everything = d in REPRESENTATIVE[group] or (tier == "thorough" and group == "youtube")
         for kind, h in mutations(d):
-            decos = full if everything else reduced(i, D)
+            decos = full if everything else reduced(i, D, wide=(tier == "thorough"))
             check_block(ctx, preds, h, kind, *decos)
             if site_member(preds[-1], h):
                 ctx.col.nontriv((group, h))
@@ -525,7 +543,7 @@ def make_jobs(tier, seed):
     for site in SITE_DOMAINS:
         jobs.append((tier, seed, "site", site))
     jobs.append((tier, seed, "simple"))
-    nrand, per = (24000, 1500) if tier == "quick" else (480000, 6000)
+    nrand, per = (16000, 1000) if tier == "quick" else (480000, 6000)
     for k in range(nrand // per):
         jobs.append((tier, seed, "random", seed * 1000003 + k, per))
     # long jobs first
@@ -549,8 +567,7 @@ def replay(ctx, rp):
     if inp["form"] == "split":
         form = "split"
     else:
-        p = c["prefix"]
-        form = {"http://": "http", "https://": "https", "HTTP://": "HTTP", "//": "slashes", "": "bare"}[p]
+        form = ("literal", c["prefix"])
     if key in SIMPLE:
         check_simple(ctx, key, host, deco, form)
     else:
@@ -611,7 +628,8 @@ def main():
                   "regex_site_domains": SITE_DOMAINS, "host_mutations": [k for k, _ in mutations("t.me")],
                   "foreign_hosts": FOREIGN, "userinfo": UIS, "path": PATHS, "query": QS, "fragment": FS, "forms": list(FORMS),
                   "decoration_cross": "full 4x9x4x4 for the regex sites, the representative list domains %r and (thorough) every "
-                                      "list domain; quick: a rotating 2x4x2x2 sub-product per list domain" % (REPRESENTATIVE,),
+                                      "YouTube domain; otherwise a rotating sub-product per list domain (each factor keeps the "
+                                      "empty token): 2x3x2x2 (quick), 3x5x3x3 (thorough)" % (REPRESENTATIVE,),
                   "simple_predicate_hosts": SIMPLE_HOSTS, "simple_paths": SIMPLE_PATHS, "random_urls": nrand}
     col.rule = ("every domain of SHORTENER_DOMAINS + SHOULD_RESOLVE_DOMAINS (is_shortened_url, should_resolve), of YOUTUBE_DOMAINS "
                 "(is_youtube_url) and of the facebook / twitter / instagram / telegram patterns x 12 host mutations (as is, upper, "
